@@ -231,6 +231,7 @@ def run(ctx):
     except core.CoqEvalError as exc:
         ctx.note(str(exc)[:600])
         ctx.broken.append('correspondence:translator-validation (evaluation failed)')
+    search_mixed(ctx)      # force limit with mixed sizes positioned out of topology order
     search_floor(ctx)      # engine-level probe of the 0.1 nm floor / force limit (graph neighbours included); cheap, always run
     cases = [c for _, c in core.corpus_cases('C05')]
     cases += [gen_system(ctx.rng) for _ in range(ctx.n(14, 150))]
@@ -332,8 +333,77 @@ def search_floor(ctx):
     return False
 
 
+MIXED_SIZES = {'S': 0.2, 'B': 0.6}
+MIXED_BOX = np.array([6.0, 6.0, 6.0])
+
+
+def mixed_probe(atypes, order, pts, p, max_force):
+    """(observed _is_overlap, required by the statement, net force) for a small residue at p"""
+    import polyply.src.nonbond_engine as nbe
+    import polyply.src.random_walk as rw
+    import networkx as nx
+    box = MIXED_BOX
+    matrix = {frozenset([a, b]): ((MIXED_SIZES[a] + MIXED_SIZES[b]) / 2, 1.0) for a in MIXED_SIZES for b in MIXED_SIZES}
+    n = len(pts)
+    positions = np.ones((n + 1, 3)) * np.inf
+    eng = nbe.NonBondEngine(positions, {(0, k): k for k in range(n + 1)}, atypes, matrix, None, None, 1.1, box)
+    for k in order:
+        eng.add_positions(np.array(pts[k]), 0, k, start=False)
+    g = nx.Graph()
+    g.add_nodes_from(range(n + 1))
+    walker = rw.RandomWalk(0, eng, max_force=max_force, maxdim=box)
+    walker.molecule = g
+    overlap = bool(walker._is_overlap(np.array(p), n))
+    force = np.zeros(3)
+    floor = False
+    for k in range(n):
+        dv = np.array(p) - np.array(pts[k])
+        dv = dv - box * np.round(dv / box)
+        dist = float(np.linalg.norm(dv))
+        if dist < 0.1:
+            floor = True
+        if dist <= 1.1:
+            sig, eps = matrix[frozenset([atypes[k], 'S'])]
+            force += lj(sig, eps, dist) * dv / dist
+    f = float(np.linalg.norm(force))
+    return overlap, floor or f > max_force, f
+
+
+def search_mixed(ctx):
+    """engine-level probe of the force limit with residues of different sizes that were positioned in an
+    order different from their order in the topology: the limit must be judged with the sizes of the
+    residues actually nearby"""
+    rng = ctx.rng
+    for trial in range(ctx.n(40, 200)):
+        n = rng.randint(3, 6)
+        atypes = [rng.choice('SB') for _ in range(n)] + ['S']
+        pts = [[rng.uniform(0.5, 5.5) for _ in range(3)] for _ in range(n)]
+        order = list(range(n))
+        rng.shuffle(order)
+        target = rng.randrange(n)
+        d = rng.choice([0.3, 0.4, 0.5, 0.6, 0.7])
+        vec = np.array([rng.gauss(0, 1) for _ in range(3)])
+        p = ((np.array(pts[target]) + d * vec / np.linalg.norm(vec)) % MIXED_BOX).tolist()
+        max_force = rng.choice([1e2, 1e3, 5e4])
+        overlap, want, f = mixed_probe(atypes, order, pts, p, max_force)
+        if abs(f - max_force) < 1e-6 * max_force:
+            continue
+        ctx.feature('mixed_size_force_probe')
+        if overlap != want:
+            ctx.violation('search', f"_is_overlap for a small residue at {d} nm from residue {target} (type {atypes[target]}) with residues {atypes[:n]} positioned in order {order}: "
+                          f"returned {overlap}, net force {f:.3f} against max_force {max_force} requires {want}",
+                          {'probe': 'mixed', 'atypes': atypes, 'order': order, 'points': pts, 'p': p,
+                           'max_force': max_force, 'observed': overlap, 'expected': want})
+            return True
+    return False
+
+
 def replay(ctx, data):
     print(json.dumps(data, indent=1, default=str)[:3000])
+    if data.get('probe') == 'mixed':
+        overlap, want, f = mixed_probe(data['atypes'], data['order'], data['points'], data['p'], data['max_force'])
+        print(f'replay: _is_overlap returned {overlap}, net force {f:.3f}, the statement requires {want}')
+        return 0 if overlap == want else 1
     if data.get('probe') == 'floor':
         class C:
             violations = []
